@@ -19,7 +19,7 @@ from harness.asm import assemble
 from harness.common import Check, MachineryError, cleanup, run_tlc, workdir
 
 BOB = 0xB0B
-NEXT_CREATED = 0xAAAA0003
+NEXT_CREATED = 0xAAAA0005  # setUp creates the invariant target and the two callees C1, C2
 
 
 def _assert(cond_code: list, tag: str) -> list:
@@ -32,8 +32,18 @@ def build_contract():
     target_rt = assemble([("PUSH", 1), ("PUSH", 5), "SSTORE", "STOP"])  # the invariant target: any call writes its own slot 5
     target = Contract("Tgt", [Fn("poke()", [("PUSH", 1), ("PUSH", 5), "SSTORE", "STOP"])], filename="src/Tgt.sol")
     tinit = target.creation()
-    setup = [("PUSH", 7), ("PUSH", 0), "SSTORE", ("PUSH", 1), ("PUSH", 1), "SSTORE",
-             ("PUSHN", 2, len(tinit)), ("PUSHL", "tinit"), ("PUSH", 0x100), "CODECOPY", ("PUSHN", 2, len(tinit)), ("PUSH", 0x100), ("PUSH", 0), "CREATE", "POP", "STOP"]
+    # setUpSymbolic(address a): a symbolic address is part of the post-setUp state (slot 3); C1 returns 1, C2 returns 2
+    def ret_const(name, v):
+        # no functions (nothing for invariant testing to call): every call returns the constant
+        return Contract(name, [], fallback=[("PUSH", v), ("PUSH", 0), "MSTORE", ("PUSH", 32), ("PUSH", 0), "RETURN"], filename=f"src/{name}.sol")
+
+    k1, k2 = ret_const("C1", 1), ret_const("C2", 2)
+    c1, c2 = k1.creation(), k2.creation()
+    setup = [("PUSH", 7), ("PUSH", 0), "SSTORE", ("PUSH", 1), ("PUSH", 1), "SSTORE", ("PUSH", 4), "CALLDATALOAD", ("PUSH", 3), "SSTORE",
+             ("PUSHN", 2, len(tinit)), ("PUSHL", "tinit"), ("PUSH", 0x100), "CODECOPY", ("PUSHN", 2, len(tinit)), ("PUSH", 0x100), ("PUSH", 0), "CREATE", "POP",
+             ("PUSHN", 2, len(c1)), ("PUSHL", "c1"), ("PUSH", 0x100), "CODECOPY", ("PUSHN", 2, len(c1)), ("PUSH", 0x100), ("PUSH", 0), "CREATE", "POP",
+             ("PUSHN", 2, len(c2)), ("PUSHL", "c2"), ("PUSH", 0x100), "CODECOPY", ("PUSHN", 2, len(c2)), ("PUSH", 0x100), ("PUSH", 0), "CREATE", "POP", "STOP"]
+    call_stored = [("PUSH", 0), ("PUSH", 0x40), "MSTORE", ("PUSH", 32), ("PUSH", 0x40), ("PUSH", 0), ("PUSH", 0), ("PUSH", 0), ("PUSH", 3), "SLOAD", ("PUSH", 0xFFFFFF), "CALL", "POP"]
     s0_is_7 = [("PUSH", 0), "SLOAD", ("PUSH", 7), "EQ"]
     s1_is_1 = [("PUSH", 1), "SLOAD", ("PUSH", 1), "EQ"]
     bal0 = [("PUSH", BOB), "BALANCE", "ISZERO"]
@@ -50,12 +60,14 @@ def build_contract():
         "read_code": _assert(code0, "rc") + ["STOP"],
         "write_time": _assert(time1, "wt") + cheat_call(HEVM, "warp(uint256)", [[("PUSH", 100)]]) + ["STOP"],
         "read_time": _assert(time1, "rti") + ["STOP"],
+        "alias_a": call_stored + ["STOP"],
+        "alias_b": call_stored + _assert([("PUSH", 0x40), "MLOAD", ("PUSH", 2), "EQ", "ISZERO"], "ab") + ["STOP"],
     }
-    test_fns = [Fn("setUp()", setup)] + [Fn(f"check_{k}()", v) for k, v in fns.items()]
+    test_fns = [Fn("setUpSymbolic(address)", setup)] + [Fn(f"check_{k}()", v) for k, v in fns.items()]
     test_fns.append(Fn("invariant_a()", _assert(s1_is_1, "ia") + ["STOP"]))
     test_fns.append(Fn("invariant_b()", _assert(s1_is_1, "ib1") + _assert(s0_is_7, "ib0") + ["STOP"]))
-    c = Contract("IsoT", test_fns, data=[("MARK", "tinit"), ("RAW", tinit), ("MARK", "tiny"), ("RAW", tiny)])
-    return c, target
+    c = Contract("IsoT", test_fns, data=[("MARK", "tinit"), ("RAW", tinit), ("MARK", "tiny"), ("RAW", tiny), ("MARK", "c1"), ("RAW", c1), ("MARK", "c2"), ("RAW", c2)])
+    return c, [target, k1, k2]
 
 
 def sig_of(name: str) -> str:
@@ -93,16 +105,24 @@ def run(chk: Check, tier: str):
                 seen.add(k)
                 hists.append(h)
         rnd = random.Random(chk.seed * 17 + 20)
+        # histories in which the second test reads what the first one writes are always replayed
+        kinds = ["storage", "transient", "balance", "code", "time"]
+        conflicts = {(f"write_{k}", f"read_{k}") for k in kinds} | {(f"write_{k}", f"write_{k}") for k in kinds} | \
+                    {("alias_a", "alias_b"), ("alias_b", "alias_b"), ("alias_b", "alias_a"), ("inv_a", "inv_b"), ("inv_b", "inv_a"), ("write_storage", "inv_b")}
+        must = [h for h in hists if len(h) == 2 and (h[0]["test"], h[1]["test"]) in conflicts]
+        if len(must) != len(conflicts):
+            raise MachineryError(f"TestRun.tla did not enumerate every conflicting pair: {len(must)} of {len(conflicts)}")
         if tier == "quick":
-            pick = [h for h in hists if len(h) <= 1] + rnd.sample([h for h in hists if len(h) == 2], 45)
+            rest = [h for h in hists if len(h) == 2 and h not in must]
+            pick = [h for h in hists if len(h) <= 1] + must + rnd.sample(rest, 30)
         else:
             pick = [h for h in hists if len(h) <= 2] + rnd.sample([h for h in hists if len(h) == 3], 500)
-        contract, target = build_contract()
+        contract, others = build_contract()
         baseline = {}
         for h in pick:
             order = [e["test"] for e in h]
             sigs = [sig_of(t) for t in order]
-            out = run_contract(contract, others=[target], funsigs=sigs, cli=("--invariant-depth", "1"))
+            out = run_contract(contract, others=others, funsigs=sigs, cli=("--invariant-depth", "1"))
             if out.exception or len(out.results) != len(sigs):
                 raise MachineryError(f"run_contract {sigs}: {out.exception} {out.stdout[-400:]}")
             chk.count("evaluations")
@@ -122,8 +142,8 @@ def run(chk: Check, tier: str):
             chk.sample({"order": order, "exitcodes": [x.exitcode for x in out.results]})
         # determinism: the same selection twice in one process
         sigs = [sig_of(t) for t in ["read_storage", "write_code", "inv_a", "inv_b", "read_time"]]
-        a = normalise(run_contract(contract, others=[target], funsigs=sigs, cli=("--invariant-depth", "1")).results)
-        b = normalise(run_contract(contract, others=[target], funsigs=sigs, cli=("--invariant-depth", "1")).results)
+        a = normalise(run_contract(contract, others=others, funsigs=sigs, cli=("--invariant-depth", "1")).results)
+        b = normalise(run_contract(contract, others=others, funsigs=sigs, cli=("--invariant-depth", "1")).results)
         chk.count("traces_validated_against_impl")
         if a != b:
             chk.violation("nondeterministic-repeat", f"two runs of the same tests in one process differ after normalising uid suffixes: {a} vs {b}", {"a": repr(a), "b": repr(b)})
@@ -140,8 +160,8 @@ def run(chk: Check, tier: str):
     finally:
         cleanup(work)
     chk.cov["rule"] = (
-        "all orders with repetition of <= 2 (quick: all of length 1, 45 sampled of length 2) / <= 3 (thorough) of 12 tests "
-        "(writers and readers of storage, transient storage, a balance, created code, block timestamp; two invariant tests "
-        "sharing the frontier cache), enumerated by TLC from TestRun.tla and replayed through one run_contract call each; "
+        "all orders with repetition of <= 2 (quick: all of length 1, every writer-then-reader pair, 30 sampled others of length 2) / <= 3 (thorough) of 14 tests "
+        "(writers and readers of storage, transient storage, a balance, created code, block timestamp; two tests calling the symbolic address "
+        "chosen by setUpSymbolic(address) (the per-path alias cache); two invariant tests sharing the frontier cache), enumerated by TLC from TestRun.tla and replayed through one run_contract call each; "
         "per test the exit code must equal the model's and the normalised result must be the same in every history"
     )
